@@ -102,10 +102,10 @@ Proof. constructor; cbn; [constructor|intros kc []|reflexivity]. Qed.
    stays (the session lives on) *)
 From UPF Require Import Proofs.ModImage Proofs.ModWorld Proofs.ModMarkers.
 From Coq Require Import Permutation.
-Theorem C05_modification_frees_removed_teids : forall burst a c seid cpf cp cf cq up uf uq rp rf rq s0 w6 a' c' o,
+Theorem C05_modification_frees_removed_teids : forall burst a c seid cpf cp cf cq up uf uq rp rf rq mid s0 w6 a' c' o,
   find_session seid (c_sessions c) = Some s0 ->
   mod_loops a c s0 seid cp cf cq up uf uq = (w6, 0%nat) ->
-  late_ok a c seid s0 w6 cp cf cq up uf uq rp rf rq = true ->
+  late_ok a c seid s0 w6 cp cf cq up uf uq rp rf rq mid = true ->
   handle_mod burst a c seid cpf cp cf cq up uf uq rp rf rq = Done (a', c', o) ->
   exists s' dp,
     find_session seid (c_sessions c') = Some s' /\
@@ -130,7 +130,7 @@ Example C05_modification_nonvacuous :
   let c := Conn 7 [] [s] 0 in
   exists w6 a' c' o,
     find_session 5 (c_sessions c) = Some s /\ mod_loops a c s 5 [] [] [] [] [] [] = (w6, 0%nat) /\
-    late_ok a c 5 s w6 [] [] [] [] [] [] [IOk 1] [] [] = true /\
+    late_ok a c 5 s w6 [] [] [] [] [] [] [IOk 1] [] [] true = true /\
     handle_mod burst a c 5 None [] [] [] [] [] [] [IOk 1] [] [] = Done (a', c', o) /\
     o_reply o = Some (RMod 77 CAUSE_OK) /\ is_allocated 3 (a_teids a) = true /\ is_allocated 3 (a_teids a') = false /\
     map (fun x => map p_id (view (s_pdrs x))) (c_sessions c') = [[2]] /\ length (t_pdr (a_tables a')) = 1%nat.
